@@ -657,6 +657,56 @@ def structure_preserving(F, rep, rule, fn, enum, recursive, carrier="TyID"):
     return n
 
 
+def edges_enumerated(F, rep, rule, fn, enum, carrier="TyID"):
+    """For a function that lists the type-graph edges leaving a node (the sibling of the copy): every arm over variant V of
+    `enum` binds every payload that holds a `carrier` and uses it - a payload matched with `_` is an edge the walk does not
+    follow, so what lies behind it is treated as not reachable."""
+    adt = F.adt(enum)
+    vfields = {norm_path(v["path"]): v for v in adt["variants"]}
+    n = 0
+    for m in nodes(fn_body(fn), "Match"):
+        if not ty_is((m.get("scrut_ty") or "").lstrip("&"), enum):
+            continue
+        covered = set()
+        for arm in m["arms"]:
+            for alt in pat_alternatives(arm["pat"]):
+                vp = pat_variant(alt)
+                if not vp or vp not in vfields:
+                    continue
+                v = vfields[vp]
+                p = pat_strip(alt)
+                subs = {}
+                if p.get("k") == "TupleStruct":
+                    subs = dict(enumerate(p["pats"]))
+                elif p.get("k") == "Struct":
+                    names = [f["name"] for f in v["fields"]]
+                    subs = {names.index(f["name"]): f["pat"] for f in p["fields"] if f["name"] in names}
+                for i, fld in enumerate(v["fields"]):
+                    if carrier not in fld["ty"]:
+                        continue
+                    n += 1
+                    covered.add((v["name"], i))
+                    sub = subs.get(i)
+                    bound = {x["hid"] for x in pat_bindings(sub)} if isinstance(sub, dict) else set()
+                    # Option<TyID> payloads: `Variant(_, None)` next to `Variant(_, Some(x))` is the absent edge
+                    absent = isinstance(sub, dict) and (pat_variant(pat_strip(sub)) or "").endswith("Option::None")
+                    used = bool(bound) and Flow.mentions(arm["body"], bound)
+                    rep.ob(rule, "%s|%s::%s.%d" % (last(fn["_path"]), last(enum), v["name"], i), used or absent,
+                           ("%s follows the %s edge of %s::%s" % (last(fn["_path"]), fld["ty"].split("::")[-1][:20], last(enum), v["name"]))
+                           if used else ("%s::%s without a payload has no edge" % (last(enum), v["name"])) if absent else
+                           ("%s does not follow payload %d (%s) of %s::%s: the types behind it are not counted as reachable - an "
+                            "instantiation copies them although they belong to the surroundings" % (
+                                last(fn["_path"]), i, fld["ty"].split("::")[-1][:20], last(enum), v["name"])), line_of(arm))
+        # variants with an edge that no arm names (hidden behind `_ =>`)
+        for vp, v in vfields.items():
+            for i, fld in enumerate(v["fields"]):
+                if carrier in fld["ty"] and (v["name"], i) not in covered:
+                    n += 1
+                    rep.ob(rule, "%s|%s::%s.%d" % (last(fn["_path"]), last(enum), v["name"], i), False,
+                           "%s has no arm for %s::%s, which carries a %s" % (last(fn["_path"]), last(enum), v["name"], carrier), fn["sp"])
+    return n
+
+
 # --------------------------------------------------------------------------- dropped results
 
 def dropped_results(F, rep, rule, prefixes):
@@ -927,6 +977,9 @@ def ret_fold(F, rep, rule, fn):
                 if seen[key] > 1:
                     key += "#%d" % seen[key]
                 ok = any(x is not None and read_on_all_paths(x, bb["hid"]) for x in rest)
+                if ok and not _flows_to_result(body, bb["hid"]):
+                    ok = False
+                    what += " is read, but what is computed from it never reaches a result (`Ok(..)` / with_ret(..)): it"
                 rep.ob(rule, key, ok,
                        ("%s (`%s`) is used on every success path" % (what, bb["name"])) if ok else
                        ("%s (`%s`) is dropped on some success path: a `ret` inside that child is then never compared with "
@@ -953,6 +1006,74 @@ def ret_fold(F, rep, rule, fn):
                        "kind always claims to contain a `ret`, so `f :: fn -> int do x :: (1, 2) end` (no value, no ret) is accepted",
                        line_of(c))
     return n
+
+
+def _flows_to_result(body, hid):
+    """does a value computed from local `hid` reach something the function hands back (an argument of Ok / with_ret /
+    no_ret, a returned expression)?  A read whose result is thrown away - `self.unify_option(.., x, ret)?;` as a statement
+    - is not a use of x."""
+    S = {hid}
+    writes = []
+    for x in nodes(body):
+        k = x.get("k")
+        if k == "Let" and x.get("init") is not None:
+            writes.append(([b["hid"] for b in pat_bindings(x["pat"])], x["init"]))
+        elif k in ("Assign", "AssignOp"):
+            t = peel(x["l"])
+            while isinstance(t, dict) and t.get("k") in ("Field", "Index"):
+                t = peel(t["e"])
+            if isinstance(t, dict) and t.get("k") == "Path" and t.get("res") == "Local":
+                writes.append(([t["hid"]], x["r"]))
+        elif k == "MethodCall" and x["m"] in ("push", "insert", "extend", "push_back") and x["args"]:
+            t = peel(x["recv"])
+            if isinstance(t, dict) and t.get("k") == "Path" and t.get("res") == "Local":
+                writes.append(([t["hid"]], dict(k="Tup", es=list(x["args"]))))
+        elif k in ("Match", "LetCond"):
+            scr = x["scrut"] if k == "Match" else x["init"]
+            pats = [a["pat"] for a in x["arms"]] if k == "Match" else [x["pat"]]
+            writes.append(([b["hid"] for p_ in pats for b in pat_bindings(p_)], scr))
+        elif k == "ForLoop":
+            writes.append(([b["hid"] for b in pat_bindings(x["pat"])], x["iter"]))
+        elif k == "Closure":
+            pass
+    changed = True
+    while changed:
+        changed = False
+        for tgts, rhs in writes:
+            if all(t in S for t in tgts):
+                continue
+            if any(p_.get("res") == "Local" and p_.get("hid") in S for p_ in nodes(rhs, "Path")):
+                S.update(tgts)
+                changed = True
+    for x in nodes(body):
+        k = x.get("k")
+        if k == "Call":
+            c = callee(x) or ""
+            if c.endswith(("Result::Ok", "typechecker::with_ret", "typechecker::no_ret", "Option::Some")):
+                if any(p_.get("res") == "Local" and p_.get("hid") in S for a in x["args"] for p_ in nodes(a, "Path")):
+                    return True
+        elif k == "Ret" and x.get("e") is not None:
+            if any(p_.get("res") == "Local" and p_.get("hid") in S for p_ in nodes(x["e"], "Path")):
+                return True
+
+    def value_tails(e):
+        e = peel(e)
+        if not isinstance(e, dict):
+            return []
+        k = e.get("k")
+        if k == "Block":
+            return value_tails(e["e"]) if e.get("e") is not None else []
+        if k == "Match":
+            return [t for a_ in e["arms"] for t in value_tails(a_["body"])]
+        if k == "If":
+            return value_tails(e["t"]) + (value_tails(e["e"]) if e.get("e") is not None else [])
+        if k == "Try":
+            return [e]
+        return [e]
+    for t in value_tails(body):
+        if any(p_.get("res") == "Local" and p_.get("hid") in S for p_ in nodes(t, "Path")):
+            return True
+    return False
 
 
 def _parents_of_node(root, target):
